@@ -155,8 +155,8 @@ def create_nxgraph(net, include_pipes=True, respect_status_pipes=True,
 
     # remove out of service junctions
     if respect_status_junctions:
-        for b in net.junction.index[~net.junction.in_service.values]:
-            mg.remove_node(b)
+        # (a junction may already have been removed as nogojunction)
+        mg.remove_nodes_from(net.junction.index[~net.junction.in_service.values])
 
     return mg
 
